@@ -121,15 +121,17 @@ theorem C20_obj_derivative_snap [FloorRing K] (o : Obj K) (tol : K) (htol : 0 < 
   derivativeGeneric_congr o htol h derivs above tensor
 
 /-- **Fuzz never fails (object level).**  If the knot tuple `qs` is in the domain in every
-    non-periodic direction, evaluation at the fuzzed tuple `ps` (which may lie just outside an
+    non-periodic direction (and no non-periodic direction has an EMPTY parameter list, for which the
+    real code raises `ValueError` from `min()`), evaluation at the fuzzed tuple `ps` (which may lie just outside an
     end) succeeds and returns the value at `qs`. -/
 theorem C20_obj_evaluate_fuzz_ok [FloorRing K] (o : Obj K) (tol : K) (htol : 0 < tol)
     (ps qs : List (List K)) (h : NearAll tol o.bases.toList ps qs)
     (hdom : ∀ bp ∈ List.zip o.bases.toList qs, bp.1.periodic < 0 →
         ∀ τ ∈ bp.2, bp.1.start ≤ snap bp.1 tol τ ∧ snap bp.1 tol τ ≤ bp.1.stop)
+    (hne : ∀ bp ∈ List.zip o.bases.toList qs, bp.1.periodic < 0 → bp.2 ≠ [])
     (tensor : Bool) (hlen : tensor = true ∨ (qs.map List.length).eraseDups.length = 1) :
     ∃ r, o.evaluate tol ps tensor = .ok r ∧ o.evaluate tol qs tensor = .ok r :=
-  evaluate_fuzz_ok o htol h hdom tensor hlen
+  evaluate_fuzz_ok o htol h hdom hne tensor hlen
 
 /-- The same for the generic derivative path (non-rational, or total order `≤ 1`: the generic
     rational path raises `RuntimeError` above that by design). -/
@@ -137,12 +139,13 @@ theorem C20_obj_derivative_fuzz_ok [FloorRing K] (o : Obj K) (tol : K) (htol : 0
     (ps qs : List (List K)) (h : NearAll tol o.bases.toList ps qs)
     (hdom : ∀ bp ∈ List.zip o.bases.toList qs, bp.1.periodic < 0 →
         ∀ τ ∈ bp.2, bp.1.start ≤ snap bp.1 tol τ ∧ snap bp.1 tol τ ≤ bp.1.stop)
+    (hne : ∀ bp ∈ List.zip o.bases.toList qs, bp.1.periodic < 0 → bp.2 ≠ [])
     (derivs : List ℕ) (above : List Bool) (tensor : Bool)
     (hlen : tensor = true ∨ (qs.map List.length).eraseDups.length = 1)
     (hrat : o.rational = false ∨ derivs.sum ≤ 1) :
     ∃ r, o.derivativeGeneric tol ps derivs above tensor = .ok r ∧
       o.derivativeGeneric tol qs derivs above tensor = .ok r :=
-  derivativeGeneric_fuzz_ok o htol h hdom derivs above tensor hlen hrat
+  derivativeGeneric_fuzz_ok o htol h hdom hne derivs above tensor hlen hrat
 
 /-- Concrete instance: a curve evaluated strictly within `tol` of the end of its (non-periodic or
     periodic) basis — inside or outside — does not raise and gives the end point. -/
@@ -235,9 +238,146 @@ theorem C20_vertexdict_window (dim : ℕ) (rtol atol : K) (d : VertexDict K V)
     refine ⟨⟨k, hk⟩, fun c hc => ?_⟩
     rw [← (hwf.keys i k hk).2 c hc]; exact hall c hc
 
-/-- Every member of the candidate set of a look-up (`rtol = 0`) is a live stored key all of
-    whose coordinates are within `atol` (≤) of the query. -/
-theorem C20_vertexdict_candidates (dim : ℕ) (atol : K) (d : VertexDict K V)
+/-- **The `_bounds` window, semantically** (any `0 ≤ rtol < 1`, `0 ≤ atol`; all three sign cases of
+    the code, for every sign of the query coordinate `x` and the stored coordinate `v`):
+    `v ∈ [_bounds(x))  ↔  x − v ≤ atol + rtol·|v|  ∧  v − x < atol + rtol·|v|`
+    (`Within rtol atol x v`: `isclose` with the *stored* value as reference, upper end excluded). -/
+theorem C20_vertexdict_bounds (d : VertexDict K V) (hr0 : 0 ≤ d.rtol) (hr1 : d.rtol < 1)
+    (ha : 0 ≤ d.atol) (x v : K) :
+    ((d.bounds x).1 ≤ v ∧ v < (d.bounds x).2) ↔
+      (x - v ≤ d.atol + d.rtol * |v| ∧ v - x < d.atol + d.rtol * |v|) :=
+  bounds_within_iff d hr0 hr1 ha x v
+
+/-- **VertexDict look-up, whatever tolerances are configured** (`0 ≤ rtol < 1`, `0 ≤ atol`): for
+    every dictionary reachable by `__setitem__`/`__delitem__`, row `i` is a candidate of the look-up
+    of `q` **iff** it holds a live key `k` with `Within rtol atol q[c] k[c]` in every coordinate. -/
+theorem C20_vertexdict_lookup (dim : ℕ) (rtol atol : K) (hr0 : 0 ≤ rtol) (hr1 : rtol < 1)
+    (ha : 0 ≤ atol) (d : VertexDict K V) (hd : Reachable dim rtol atol d) (q : Array K)
+    (hq : q.size = dim) (i : ℕ) :
+    i ∈ d.liveCandidates q ↔
+      ∃ k, d.keys.getD i none = some k ∧
+        ∀ c, c < dim → Within rtol atol (q.getD c 0) (k.getD c 0) := by
+  obtain ⟨⟨orig, hwf⟩, hr, hat⟩ := reachable_wf hd
+  have := mem_liveCandidates_within d dim orig hwf (by rw [hr]; exact hr0) (by rw [hr]; exact hr1)
+    (by rw [hat]; exact ha) q hq i
+  rw [hr, hat] at this
+  exact this
+
+/-- **VertexDict, any `0 ≤ rtol < 1`, `0 ≤ atol`.**  For every reachable dictionary and query `q`
+    (`dim > 0` coordinates):
+    1. if `_candidate(q)` returns row `c`, then `__getitem__` returns the value stored in row `c`,
+       row `c` holds a live key within the tolerance of `q` in every coordinate, and `c` is the
+       least such row, i.e. the earliest inserted matching key.  (The least-index choice is the
+       model's: the code takes the first element of a Python `set` in hash order, which is *some*
+       live candidate; the two agree whenever at most one stored key matches.)
+    2. the look-up succeeds iff some live stored key is within the tolerance of `q`;
+    3. otherwise it raises `KeyError`. -/
+theorem C20_vertexdict (dim : ℕ) (hdim : 0 < dim) (rtol atol : K) (hr0 : 0 ≤ rtol) (hr1 : rtol < 1)
+    (ha : 0 ≤ atol) (d : VertexDict K V) (hd : Reachable dim rtol atol d) (q : Array K)
+    (hq : q.size = dim) :
+    (∀ c, d.candidate q = .ok c →
+        d.getItem q = .ok (d.values.getD c none) ∧
+        (∃ k, d.keys.getD c none = some k ∧
+          ∀ x, x < dim → Within rtol atol (q.getD x 0) (k.getD x 0)) ∧
+        (∀ i k, d.keys.getD i none = some k →
+          (∀ x, x < dim → Within rtol atol (q.getD x 0) (k.getD x 0)) → c ≤ i)) ∧
+    ((∃ c, d.candidate q = .ok c) ↔
+        ∃ i k, d.keys.getD i none = some k ∧
+          ∀ x, x < dim → Within rtol atol (q.getD x 0) (k.getD x 0)) ∧
+    ((∀ i k, d.keys.getD i none = some k →
+          ∃ x, x < dim ∧ ¬ Within rtol atol (q.getD x 0) (k.getD x 0)) →
+        d.candidate q = .error .key ∧ d.getItem q = .error .key) := by
+  have hq0 : q.size ≠ 0 := by omega
+  have hlook := C20_vertexdict_lookup dim rtol atol hr0 hr1 ha d hd q hq
+  refine ⟨?_, ?_, ?_⟩
+  · intro c hc
+    obtain ⟨hcm, hmin⟩ := candidate_ok d q c hc
+    refine ⟨by unfold VertexDict.getItem; rw [hc]; rfl, (hlook c).1 hcm, ?_⟩
+    intro i k hk hall
+    exact hmin i ((hlook i).2 ⟨k, hk, hall⟩)
+  · constructor
+    · rintro ⟨c, hc⟩
+      obtain ⟨k, hk, hall⟩ := (hlook c).1 (candidate_ok d q c hc).1
+      exact ⟨c, k, hk, hall⟩
+    · rintro ⟨i, k, hk, hall⟩
+      exact candidate_some d q hq0 ((hlook i).2 ⟨k, hk, hall⟩)
+  · intro hfar
+    have hnil : d.liveCandidates q = [] := by
+      apply List.eq_nil_iff_forall_not_mem.2
+      intro i hi
+      obtain ⟨k, hk, hall⟩ := (hlook i).1 hi
+      obtain ⟨x, hx, hnot⟩ := hfar i k hk
+      exact hnot (hall x hx)
+    have hc := candidate_none d q hq0 hnil
+    exact ⟨hc, by unfold VertexDict.getItem; rw [hc]; rfl⟩
+
+/-- **`__setitem__`, any `0 ≤ rtol < 1`, `0 ≤ atol`.**
+    1. If a live stored key is within the tolerance of `q`, no key is added: the value of the
+       (earliest) matching row is overwritten.
+    2. If no live stored key is within the tolerance of `q`, a new row is appended: the number of
+       rows grows by one, the new row holds the key `q`, all earlier rows keep their keys; and
+       (`atol > 0`) a look-up of `q` afterwards returns the value just stored. -/
+theorem C20_vertexdict_set (dim : ℕ) (hdim : 0 < dim) (rtol atol : K) (hr0 : 0 ≤ rtol)
+    (hr1 : rtol < 1) (ha : 0 ≤ atol) (d : VertexDict K V) (hd : Reachable dim rtol atol d)
+    (q : Array K) (hq : q.size = dim) (v : V) :
+    (∀ c, d.candidate q = .ok c →
+        d.setItem q v = .ok { d with values := d.values.setIfInBounds c (some v) }) ∧
+    ((∀ i k, d.keys.getD i none = some k →
+          ∃ x, x < dim ∧ ¬ Within rtol atol (q.getD x 0) (k.getD x 0)) →
+        d.setItem q v = .ok (d.insert q v) ∧
+        (d.insert q v).keys.size = d.keys.size + 1 ∧
+        (d.insert q v).keys.getD d.keys.size none = some q ∧
+        (∀ i, i < d.keys.size → (d.insert q v).keys.getD i none = d.keys.getD i none) ∧
+        (0 < atol → (d.insert q v).getItem q = .ok (some v))) := by
+  refine ⟨fun c hc => setItem_of_candidate d q v hc, ?_⟩
+  intro hfar
+  have hnone := ((C20_vertexdict dim hdim rtol atol hr0 hr1 ha d hd q hq).2.2 hfar).1
+  have hset := setItem_of_none d q v hnone
+  refine ⟨hset, insert_keys_size d q v, insert_keys_new d q v, fun i hi => insert_keys_old d q v hi, ?_⟩
+  intro hapos
+  have hd' : Reachable dim rtol atol (d.insert q v) := Reachable.set q v hd hq hset
+  have hq0 : q.size ≠ 0 := by omega
+  have hlook := C20_vertexdict_lookup dim rtol atol hr0 hr1 ha (d.insert q v) hd' q hq
+  obtain ⟨⟨orig, hwf⟩, _, _⟩ := reachable_wf hd
+  -- the new row matches `q` itself
+  have hnew : d.keys.size ∈ (d.insert q v).liveCandidates q := by
+    apply (hlook _).2
+    refine ⟨q, insert_keys_new d q v, fun c _ => ?_⟩
+    rw [within_self_iff]
+    have : 0 ≤ rtol * |q.getD c 0| := mul_nonneg hr0 (abs_nonneg _)
+    linarith
+  obtain ⟨c, hc⟩ := candidate_some (d.insert q v) q hq0 hnew
+  obtain ⟨hcm, hmin⟩ := candidate_ok (d.insert q v) q c hc
+  -- no old row matches, so the candidate is the new row
+  have hcn : c = d.keys.size := by
+    have hle := hmin _ hnew
+    rcases Nat.lt_or_eq_of_le hle with hlt | heq
+    · exfalso
+      obtain ⟨k, hk, hall⟩ := (hlook c).1 hcm
+      rw [insert_keys_old d q v hlt] at hk
+      obtain ⟨x, hx, hnot⟩ := hfar c k hk
+      exact hnot (hall x hx)
+    · exact heq
+  unfold VertexDict.getItem
+  rw [hc, hcn, ← hwf.sizes]
+  show Except.ok ((d.insert q v).values.getD d.values.size none) = Except.ok (some v)
+  rw [insert_values_new]
+
+/-- For `rtol > 0` "within tolerance" is not symmetric (the stored value is the reference):
+    with `rtol = 3/5`, `atol = 0` the stored `2` is within tolerance of the query `1`, the stored
+    `1` is not within tolerance of the query `2`. -/
+theorem C20_vertexdict_within_not_symmetric :
+    Within (3 / 5 : ℚ) 0 1 2 ∧ ¬ Within (3 / 5 : ℚ) 0 2 1 := by
+  unfold Within
+  constructor
+  · norm_num
+  · norm_num
+
+/-- Sub-family `rtol = 0` of `C20_vertexdict_lookup` (named `_partial` only because it fixes
+    `rtol = 0`; nothing of the property is missing, the general statement is `C20_vertexdict_lookup`):
+    every member of the candidate set is a live stored key all of whose coordinates are within
+    `atol` (≤) of the query.  Only for `rtol = 0` is "within tolerance" the symmetric `|k − q|`. -/
+theorem C20_vertexdict_candidates_rtol0_partial (dim : ℕ) (atol : K) (d : VertexDict K V)
     (hd : Reachable dim 0 atol d) (q : Array K) (hq : q.size = dim) (i : ℕ)
     (hi : i ∈ d.liveCandidates q) :
     ∃ k, d.keys.getD i none = some k ∧ ∀ c, c < dim → |k.getD c 0 - q.getD c 0| ≤ atol := by
@@ -248,14 +388,16 @@ theorem C20_vertexdict_candidates (dim : ℕ) (atol : K) (d : VertexDict K V)
   rw [bounds_rtol_zero d hr, ha, ← (hwf.keys i k hk).2 c hc] at this
   exact abs_le.2 ⟨by linarith [this.1], by linarith [this.2]⟩
 
-/-- **VertexDict, `rtol = 0`**, for every dictionary reachable by `__setitem__`/`__delitem__` with
+/-- Sub-family `rtol = 0` of `C20_vertexdict` in the symmetric form `|k − q| < atol` / `> atol`
+    (named `_partial` only because it fixes `rtol = 0`; the general statement is `C20_vertexdict`).
+    **VertexDict, `rtol = 0`**, for every dictionary reachable by `__setitem__`/`__delitem__` with
     keys of `dim > 0` coordinates and every query `q`:
     1. if a live stored key `k` (row `i`) has every coordinate strictly within `atol` of `q`, the
        look-up succeeds and returns the value of a live stored key within `atol` of `q`; when `k`
        is the only stored key within `atol` (≤) of `q`, it returns the value stored with `k`;
     2. if every live stored key has some coordinate farther than `atol` from `q`, the look-up
        raises `KeyError` (the point is a different vertex). -/
-theorem C20_vertexdict (dim : ℕ) (hdim : 0 < dim) (atol : K) (d : VertexDict K V)
+theorem C20_vertexdict_rtol0_partial (dim : ℕ) (hdim : 0 < dim) (atol : K) (d : VertexDict K V)
     (hd : Reachable dim 0 atol d) (q : Array K) (hq : q.size = dim) :
     (∀ i k, d.keys.getD i none = some k →
         (∀ c, c < dim → |k.getD c 0 - q.getD c 0| < atol) →
@@ -278,7 +420,7 @@ theorem C20_vertexdict (dim : ℕ) (hdim : 0 < dim) (atol : K) (d : VertexDict K
       exact ⟨by linarith, by linarith⟩
     obtain ⟨c, hc⟩ := candidate_some d q hq0 hmem
     have hcm := (candidate_ok d q c hc).1
-    obtain ⟨k', hk', hall⟩ := C20_vertexdict_candidates dim atol d hd q hq c hcm
+    obtain ⟨k', hk', hall⟩ := C20_vertexdict_candidates_rtol0_partial dim atol d hd q hq c hcm
     have hget : d.getItem q = .ok (d.values.getD c none) := by
       unfold VertexDict.getItem; rw [hc]; rfl
     refine ⟨⟨c, k', hget, hk', hall⟩, ?_⟩
@@ -289,7 +431,7 @@ theorem C20_vertexdict (dim : ℕ) (hdim : 0 < dim) (atol : K) (d : VertexDict K
     have hnil : d.liveCandidates q = [] := by
       apply List.eq_nil_iff_forall_not_mem.2
       intro i hi
-      obtain ⟨k, hk, hall⟩ := C20_vertexdict_candidates dim atol d hd q hq i hi
+      obtain ⟨k, hk, hall⟩ := C20_vertexdict_candidates_rtol0_partial dim atol d hd q hq i hi
       obtain ⟨c, hc, hlt⟩ := hfar i k hk
       exact absurd (hall c hc) (not_le.2 hlt)
     unfold VertexDict.getItem
